@@ -1,7 +1,275 @@
-(* C08 - property theorems (statements only; proofs in Postsolve_Proofs.v) *)
-From Coq Require Import QArith List.
-From SV Require Import Vec LP Cert PostsolveModel Postsolve_Proofs.
+(* C08 - Presolve verdicts are true; postsolve maps optimal solutions to optimal ones.
 
-Theorem C08_placeholder_snth_supd : forall l i v, snth (supd l i v) i = v.
-Proof. exact snth_supd_same. Qed.
-Print Assumptions C08_placeholder_snth_supd.
+   What is proved here (statements only; proofs in Postsolve_Proofs.v): for the post-solve steps of SPxMainSM, modelled in
+   PostsolveModel.v case split by case split (the model is replayed against `PostStep::execute` on every run of the
+   check), and for LPs / vectors of EVERY dimension:
+     - identities:   if  s = A'x  and  r = c' - A'^T y  hold for the LP after the reduction, then after `execute` they hold
+                     for the LP before it;
+     - feasibility and signs: bounds, sides and the complementary-slackness sign conditions carry over;
+     - basis count:  the number of BASIC entries stays equal to the number of rows;
+   and that these invariants, once they hold for the original LP at the end of the walk, make the unsimplified vectors an
+   exact optimality certificate (C08_invariants_give_optimality, through the proved checker of Cert.v).
+   The order of the reductions and which of them fire is the simplifier's choice and is not modelled; steps without a
+   general theorem here are covered per run by the composite validation (check_opt_tol on the original LP).
+   The simplifier works in minimisation form; comparisons are the exact instance of the model (`exact_cmps`) wherever a
+   theorem depends on them, most statements hold for every comparison record `c`. *)
+From Coq Require Import QArith Qabs List Bool Lia.
+From SV Require Import Vec LP Cert Cert_Proofs PostsolveModel Postsolve_Proofs.
+Import ListNotations.
+Local Open Scope Q_scope.
+
+(* ---------------------------------------------------------------------------------------------------------------- *)
+(* the goal of the invariants *)
+Theorem C08_invariants_give_optimality : forall (P : lp) (t : st),
+  maximize P = false -> wf_lp P -> (ncols P <= length (sx t))%nat -> (nrows P <= length (sy t))%nat ->
+  prim_ident P t -> dual_ident P t -> prim_feas P t -> dual_signs P t ->
+  check_opt_exact P (firstn (ncols P) (sx t)) (firstn (nrows P) (sy t)) = true /\ optimal P (firstn (ncols P) (sx t)).
+Proof. exact invariants_give_optimality. Qed.
+Print Assumptions C08_invariants_give_optimality.
+
+(* ---------------------------------------------------------------------------------------------------------------- *)
+(* FreeConstraintPS *)
+Theorem C08_FreeConstraint_preserves_identities : forall P i t, wf_lp P -> (i < nrows P)%nat ->
+  prim_ident (red_remove_row P i) t /\ dual_ident (red_remove_row P i) t ->
+  let t' := exec_FreeConstraint i (nrows P - 1) (sp_row P i) 0 t in prim_ident P t' /\ dual_ident P t'.
+Proof. exact FreeConstraint_identities. Qed.
+Print Assumptions C08_FreeConstraint_preserves_identities.
+
+Theorem C08_FreeConstraint_preserves_feasibility_and_signs : forall P i t, (i < nrows P)%nat ->
+  r_lhs (rowi P i) = None -> r_rhs (rowi P i) = None ->
+  prim_feas (red_remove_row P i) t /\ dual_signs (red_remove_row P i) t ->
+  let t' := exec_FreeConstraint i (nrows P - 1) (sp_row P i) 0 t in prim_feas P t' /\ dual_signs P t'.
+Proof. exact FreeConstraint_feasibility_and_signs. Qed.
+Print Assumptions C08_FreeConstraint_preserves_feasibility_and_signs.
+
+Theorem C08_FreeConstraint_basis_count : forall P i t, (i < nrows P)%nat ->
+  basis_count (red_remove_row P i) t -> basis_count P (exec_FreeConstraint i (nrows P - 1) (sp_row P i) 0 t).
+Proof. exact FreeConstraint_basis_count. Qed.
+Print Assumptions C08_FreeConstraint_basis_count.
+
+(* EmptyConstraintPS *)
+Theorem C08_EmptyConstraint_preserves_identities : forall P i t, wf_lp P -> (i < nrows P)%nat -> empty_row P i ->
+  prim_ident (red_remove_row P i) t /\ dual_ident (red_remove_row P i) t ->
+  let t' := exec_EmptyConstraint i (nrows P - 1) 0 t in prim_ident P t' /\ dual_ident P t'.
+Proof. exact EmptyConstraint_identities. Qed.
+Print Assumptions C08_EmptyConstraint_preserves_identities.
+
+Theorem C08_EmptyConstraint_preserves_feasibility_and_signs : forall P i t, (i < nrows P)%nat ->
+  in_bounds (r_lhs (rowi P i)) (r_rhs (rowi P i)) 0 ->
+  prim_feas (red_remove_row P i) t /\ dual_signs (red_remove_row P i) t ->
+  let t' := exec_EmptyConstraint i (nrows P - 1) 0 t in prim_feas P t' /\ dual_signs P t'.
+Proof. exact EmptyConstraint_feasibility_and_signs. Qed.
+Print Assumptions C08_EmptyConstraint_preserves_feasibility_and_signs.
+
+Theorem C08_EmptyConstraint_basis_count : forall P i t, (i < nrows P)%nat ->
+  basis_count (red_remove_row P i) t -> basis_count P (exec_EmptyConstraint i (nrows P - 1) 0 t).
+Proof. exact EmptyConstraint_basis_count. Qed.
+Print Assumptions C08_EmptyConstraint_basis_count.
+
+(* FixVariablePS (for every comparison record c and every recorded lower/upper: they only select the non-basic status) *)
+Theorem C08_FixVariable_preserves_identities : forall P j val, wf_lp P -> (j < ncols P)%nat -> forall c lower upper t,
+  prim_ident (red_FixVariable P j val) t /\ dual_ident (red_FixVariable P j val) t ->
+  let t' := exec_FixVariable c j (ncols P - 1) val (c_obj (colj P j)) lower upper true (sp_col P j) t in
+  prim_ident P t' /\ dual_ident P t'.
+Proof. intros P j val W Hj c lo up t [H1 H2]. split; [now apply FixVariable_prim|now apply FixVariable_dual]. Qed.
+Print Assumptions C08_FixVariable_preserves_identities.
+
+Theorem C08_FixVariable_preserves_feasibility_and_signs : forall P j val, wf_lp P -> (j < ncols P)%nat -> forall c lower upper t,
+  in_bounds (c_lo (colj P j)) (c_up (colj P j)) val -> fix_justified P j val ->
+  prim_feas (red_FixVariable P j val) t /\ dual_signs (red_FixVariable P j val) t ->
+  let t' := exec_FixVariable c j (ncols P - 1) val (c_obj (colj P j)) lower upper true (sp_col P j) t in
+  prim_feas P t' /\ dual_signs P t'.
+Proof. intros P j val W Hj c lo up t Hb Hju [H1 H2]. split; [now apply FixVariable_feas|now apply FixVariable_signs]. Qed.
+Print Assumptions C08_FixVariable_preserves_feasibility_and_signs.
+
+Theorem C08_FixVariable_basis_count : forall P j val, (j < ncols P)%nat -> forall c lower upper t,
+  basis_count (red_FixVariable P j val) t ->
+  basis_count P (exec_FixVariable c j (ncols P - 1) val (c_obj (colj P j)) lower upper true (sp_col P j) t).
+Proof. intros P j val Hj c lo up t H. now apply FixVariable_count. Qed.
+Print Assumptions C08_FixVariable_basis_count.
+
+(* same objective value: the objective offset of the reduced LP carries c_j * val *)
+Theorem C08_FixVariable_same_objective : forall P j val, (j < ncols P)%nat -> forall c lower upper t,
+  objective P (sx (exec_FixVariable c j (ncols P - 1) val (c_obj (colj P j)) lower upper true (sp_col P j) t))
+  == objective (red_FixVariable P j val) (sx t).
+Proof. intros P j val Hj c lo up t. now apply FixVariable_objective. Qed.
+Print Assumptions C08_FixVariable_same_objective.
+
+(* FixBoundsPS *)
+Theorem C08_FixBounds_preserves_identities : forall P j val, (j < ncols P)%nat -> forall s t,
+  prim_ident (red_FixBounds P j val) t /\ dual_ident (red_FixBounds P j val) t ->
+  prim_ident P (exec_FixBounds j s t) /\ dual_ident P (exec_FixBounds j s t).
+Proof. intros P j val Hj s t. now apply FixBounds_identities. Qed.
+Print Assumptions C08_FixBounds_preserves_identities.
+
+Theorem C08_FixBounds_preserves_feasibility_and_signs : forall P j val, (j < ncols P)%nat -> forall s t,
+  in_bounds (c_lo (colj P j)) (c_up (colj P j)) val -> dominated_up P j val \/ dominated_lo P j val ->
+  prim_feas (red_FixBounds P j val) t -> dual_ident (red_FixBounds P j val) t -> dual_signs (red_FixBounds P j val) t ->
+  prim_feas P (exec_FixBounds j s t) /\ dual_signs P (exec_FixBounds j s t).
+Proof. intros P j val Hj s t Hb Hd F I S. split; [now apply (FixBounds_feas P j val Hj)|now apply (FixBounds_signs P j val Hj)]. Qed.
+Print Assumptions C08_FixBounds_preserves_feasibility_and_signs.
+
+Theorem C08_FixBounds_basis_count : forall P j val, (j < ncols P)%nat -> forall s t,
+  is_basic (gcs t j) = false -> is_basic s = false ->
+  basis_count (red_FixBounds P j val) t -> basis_count P (exec_FixBounds j s t).
+Proof. intros P j val Hj s t. now apply FixBounds_count. Qed.
+Print Assumptions C08_FixBounds_basis_count.
+
+(* RowObjPS (the row objective has no counterpart in LP.v: the sign condition of the restored row is not stated) *)
+Theorem C08_RowObj_preserves_identities : forall P i w, wf_lp P -> (i < nrows P)%nat -> forall t,
+  prim_ident (red_RowObj P i w) t /\ dual_ident (red_RowObj P i w) t ->
+  prim_ident P (exec_RowObj i (ncols P) t) /\ dual_ident P (exec_RowObj i (ncols P) t).
+Proof. intros P i w W Hi t. now apply RowObj_identities. Qed.
+Print Assumptions C08_RowObj_preserves_identities.
+
+Theorem C08_RowObj_preserves_feasibility_partial : forall P i w, (i < nrows P)%nat -> forall t,
+  prim_feas (red_RowObj P i w) t -> prim_feas P (exec_RowObj i (ncols P) t).
+Proof. intros P i w Hi t. now apply RowObj_feasibility_partial. Qed.
+Print Assumptions C08_RowObj_preserves_feasibility_partial.
+
+Theorem C08_RowObj_basis_count : forall P i w, (i < nrows P)%nat -> forall t,
+  ~ (is_basic (grs t i) = true /\ is_basic (gcs t (ncols P)) = true) ->
+  basis_count (red_RowObj P i w) t -> basis_count P (exec_RowObj i (ncols P) t).
+Proof. intros P i w Hi t. now apply RowObj_count. Qed.
+Print Assumptions C08_RowObj_basis_count.
+
+(* ---------------------------------------------------------------------------------------------------------------- *)
+(* basis count of further steps (dimensions n1, m1 of the reduced LP) *)
+Theorem C08_FreeColSingleton_basis_count : forall c j i n1 m1 obj lRhs onLhs eqCons row t, (j <= n1)%nat -> (i <= m1)%nat ->
+  (cntb (scs t) n1 + cntb (srs t) m1 = m1)%nat ->
+  let t' := exec_FreeColSingleton c j i n1 m1 obj lRhs onLhs eqCons row t in
+  (cntb (scs t') (S n1) + cntb (srs t') (S m1) = S m1)%nat.
+Proof. exact FreeColSingleton_count. Qed.
+Print Assumptions C08_FreeColSingleton_basis_count.
+
+Theorem C08_MultiAggregation_basis_count : forall c j i n1 m1 obj cst onLhs eqCons row col t, (j <= n1)%nat -> (i <= m1)%nat ->
+  (cntb (scs t) n1 + cntb (srs t) m1 = m1)%nat ->
+  let t' := exec_MultiAggregation c j i n1 m1 obj cst onLhs eqCons row col t in
+  (cntb (scs t') (S n1) + cntb (srs t') (S m1) = S m1)%nat.
+Proof. exact MultiAggregation_count. Qed.
+Print Assumptions C08_MultiAggregation_basis_count.
+
+Theorem C08_DoubletonEquation_basis_count : forall c j k i ms jf jo ko aij slo sup loj col t n m, (j < n)%nat -> (k < n)%nat -> j <> k ->
+  (is_basic (gcs t k) = false -> is_basic (gcs t j) = true) ->
+  let t' := exec_DoubletonEquation c j k i ms jf jo ko aij slo sup loj col t in
+  (cntb (scs t') n + cntb (srs t') m = cntb (scs t) n + cntb (srs t) m)%nat.
+Proof. exact DoubletonEquation_count. Qed.
+Print Assumptions C08_DoubletonEquation_basis_count.
+
+(* TightenBoundsPS touches only the column statuses ... *)
+Theorem C08_TightenBounds_keeps_values : forall c j ou ol t,
+  let t' := exec_TightenBounds c j ou ol t in sx t' = sx t /\ sy t' = sy t /\ ss t' = ss t /\ sr t' = sr t /\ srs t' = srs t.
+Proof. exact TightenBounds_values. Qed.
+Print Assumptions C08_TightenBounds_keeps_values.
+
+(* ... and does NOT preserve the basis count in general: a non-basic column sitting at a tightened bound that is strictly
+   inside its original bounds becomes BASIC without any row or column leaving the basis (witness: 1 column, 1 row) *)
+Theorem C08_TightenBounds_basis_count_refuted :
+  exists c j ou ol t, (cntb (scs t) 1 + cntb (srs t) 1 = 1)%nat /\
+    let t' := exec_TightenBounds c j ou ol t in (cntb (scs t') 1 + cntb (srs t') 1 = 2)%nat.
+Proof. exact TightenBounds_count_refuted. Qed.
+Print Assumptions C08_TightenBounds_basis_count_refuted.
+
+(* ---------------------------------------------------------------------------------------------------------------- *)
+(* AggregationPS: the defect that was found with this model and its repair (commit 506310f) *)
+
+(* OLD rule: from an optimal basic solution of the reduced LP satisfying all five invariants the step produced duals that
+   violate r = c - A^T y for the LP before the aggregation *)
+Theorem C08_aggregation_dual_refuted :
+  prim_ident agg_P' agg_t /\ dual_ident agg_P' agg_t /\ prim_feas agg_P' agg_t /\ dual_signs agg_P' agg_t /\ basis_count agg_P' agg_t /\
+  exists t', agg_old = Some t' /\ prim_ident agg_P t' /\ ~ dual_ident agg_P t'.
+Proof. exact aggregation_dual_refuted_old_rule. Qed.
+Print Assumptions C08_aggregation_dual_refuted.
+
+(* NEW rule on the same witness: all invariants hold, hence (C08_invariants_give_optimality) the result is optimal *)
+Theorem C08_aggregation_fixed_on_witness :
+  exists t', agg_new = Some t' /\ prim_ident agg_P t' /\ dual_ident agg_P t' /\ prim_feas agg_P t' /\ dual_signs agg_P t' /\ basis_count agg_P t'.
+Proof. exact aggregation_fixed_on_witness. Qed.
+Print Assumptions C08_aggregation_fixed_on_witness.
+
+(* the algebra of the new rule, for all coefficients *)
+Theorem C08_aggregation_dual_update_correct : forall aij aik Rj Rk, ~ aij == 0 -> ~ aik == 0 ->
+  let r'k := Rk + (- (aik / aij)) * Rj in
+  let yi := Rj / aij + r'k / aik in
+  Rk - aik * yi == 0 /\ Rj - aij * yi == - (aij / aik) * r'k.
+Proof. exact aggregation_dual_update. Qed.
+Print Assumptions C08_aggregation_dual_update_correct.
+
+Theorem C08_aggregation_dual_sign_correct : forall aij aik r'k, ~ aij == 0 -> ~ aik == 0 ->
+  let coef := - (aik / aij) in
+  let rj := - (aij / aik) * r'k in
+  (0 < coef -> (0 <= r'k -> 0 <= rj) /\ (r'k <= 0 -> rj <= 0)) /\
+  (coef < 0 -> (0 <= r'k -> rj <= 0) /\ (r'k <= 0 -> 0 <= rj)).
+Proof. exact aggregation_dual_sign. Qed.
+Print Assumptions C08_aggregation_dual_sign_correct.
+
+(* MultiAggregationPS: the second defect (slacks) and its repair (commit aa39d1d) *)
+Theorem C08_multiaggregation_slack_refuted :
+  prim_ident magg_P' magg_t /\ dual_ident magg_P' magg_t /\ prim_feas magg_P' magg_t /\ dual_signs magg_P' magg_t /\ basis_count magg_P' magg_t /\
+  dual_ident magg_P magg_old /\ ~ prim_ident magg_P magg_old.
+Proof. exact multiaggregation_slack_refuted_old_rule. Qed.
+Print Assumptions C08_multiaggregation_slack_refuted.
+
+Theorem C08_multiaggregation_fixed_on_witness :
+  prim_ident magg_P magg_new /\ dual_ident magg_P magg_new /\ prim_feas magg_P magg_new /\ dual_signs magg_P magg_new /\ basis_count magg_P magg_new.
+Proof. exact multiaggregation_fixed_on_witness. Qed.
+Print Assumptions C08_multiaggregation_fixed_on_witness.
+
+(* ---------------------------------------------------------------------------------------------------------------- *)
+(* non-vacuity: concrete LPs and optimal basic solutions of their reductions that satisfy the hypotheses; the conclusions
+   are re-checked by computation *)
+Definition X := exact_cmps (inject_Z (10 ^ 100)).
+
+(* fixed column 0 (swap with the last column): min 3 x0 + x1, x0 = 2, x1 in [0,4], x0 + x1 >= 3 *)
+Definition ex_fv : lp := {| maximize := false; offset := 0; cols := [mkcol 3 (Some 2) (Some 2); mkcol 1 (Some 0) (Some 4)];
+                            rows := [mkrow (Some 3) [1; 1] None] |}.
+Definition ex_fv_t : st := mkst [1; 0] [1] [1] [0; 0] [BASIC; UNDEFINED] [ON_LOWER].
+Example C08_ex_FixVariable :
+  wf_lp ex_fv /\ fix_justified ex_fv 0 2 /\ all_inv_b (red_FixVariable ex_fv 0 2) ex_fv_t = true /\
+  all_inv_b ex_fv (exec_FixVariable X 0 1 2 3 2 2 true (sp_col ex_fv 0) ex_fv_t) = true /\
+  optimal ex_fv [2; 1].
+Proof.
+  assert (W : wf_lp ex_fv) by (intros i Hi; unfold nrows in Hi; simpl in Hi; destruct i; [reflexivity|lia]).
+  split; [exact W|]. split; [left; exists 2, 2; repeat split; reflexivity|].
+  split; [vm_compute; reflexivity|]. split; [vm_compute; reflexivity|].
+  assert (Hall : all_inv_b ex_fv (exec_FixVariable X 0 1 2 3 2 2 true (sp_col ex_fv 0) ex_fv_t) = true) by (vm_compute; reflexivity).
+  apply all_inv_b_ok in Hall. destruct Hall as (A & B & C & D & _).
+  assert (L1 : (ncols ex_fv <= length (sx (exec_FixVariable X 0 1 2 3 2 2 true (sp_col ex_fv 0) ex_fv_t)))%nat) by (vm_compute; lia).
+  assert (L2 : (nrows ex_fv <= length (sy (exec_FixVariable X 0 1 2 3 2 2 true (sp_col ex_fv 0) ex_fv_t)))%nat) by (vm_compute; lia).
+  destruct (C08_invariants_give_optimality ex_fv _ eq_refl W L1 L2 A B C D) as [_ O].
+  vm_compute firstn in O. exact O.
+Qed.
+
+(* free row 0 (swap with the last row): min x0, x0 in [0,4], free row, x0 >= 1 *)
+Definition ex_fc : lp := {| maximize := false; offset := 0; cols := [mkcol 1 (Some 0) (Some 4)];
+                            rows := [mkrow None [1] None; mkrow (Some 1) [1] None] |}.
+Definition ex_fc_t : st := mkst [1] [1; 0] [1; 0] [0] [BASIC] [ON_LOWER; UNDEFINED].
+Example C08_ex_FreeConstraint :
+  all_inv_b (red_remove_row ex_fc 0) ex_fc_t = true /\ all_inv_b ex_fc (exec_FreeConstraint 0 1 (sp_row ex_fc 0) 0 ex_fc_t) = true.
+Proof. split; vm_compute; reflexivity. Qed.
+
+Definition ex_ec : lp := {| maximize := false; offset := 0; cols := [mkcol 1 (Some 0) (Some 4)];
+                            rows := [mkrow None [0] (Some 1); mkrow (Some 1) [1] None] |}.
+Example C08_ex_EmptyConstraint :
+  empty_row ex_ec 0 /\ all_inv_b (red_remove_row ex_ec 0) ex_fc_t = true /\ all_inv_b ex_ec (exec_EmptyConstraint 0 1 0 ex_fc_t) = true.
+Proof. split; [intros [|[|j]]; reflexivity|]. split; vm_compute; reflexivity. Qed.
+
+(* dominated column fixed at its upper bound: min -x0, x0 in [0,4], x0 >= 1 *)
+Definition ex_fb : lp := {| maximize := false; offset := 0; cols := [mkcol (-1) (Some 0) (Some 4)]; rows := [mkrow (Some 1) [1] None] |}.
+Definition ex_fb_t : st := mkst [4] [0] [4] [-1] [FIXED] [BASIC].
+Example C08_ex_FixBounds :
+  dominated_up ex_fb 0 4 /\ all_inv_b (red_FixBounds ex_fb 0 4) ex_fb_t = true /\ all_inv_b ex_fb (exec_FixBounds 0 ON_UPPER ex_fb_t) = true.
+Proof.
+  split; [|split; vm_compute; reflexivity].
+  split; [reflexivity|]. split; [reflexivity|]. intros i Hi; unfold nrows in Hi; simpl in Hi; destruct i; [|lia].
+  split; [reflexivity|]. intros H. vm_compute in H. discriminate.
+Qed.
+
+(* row objective 2 on the row x0 >= 1: slack column with cost 2 in (-inf,-1], row x0 + slack = 0 *)
+Definition ex_ro : lp := {| maximize := false; offset := 0; cols := [mkcol 1 (Some 0) (Some 4)]; rows := [mkrow (Some 1) [1] None] |}.
+Definition ex_ro_t : st := mkst [4; -4] [2] [0] [-1; 0] [ON_UPPER; BASIC] [FIXED].
+Example C08_ex_RowObj :
+  all_inv_b (red_RowObj ex_ro 0 2) ex_ro_t = true /\
+  let t' := exec_RowObj 0 1 ex_ro_t in
+  (prim_ident_b ex_ro t' && dual_ident_b ex_ro t' && prim_feas_b ex_ro t' && basis_count_b ex_ro t')%bool = true.
+Proof. split; vm_compute; reflexivity. Qed.
